@@ -107,6 +107,10 @@ func catalogue(prop, tier string) []*scenario {
 	if tier == "thorough" {
 		var out []*scenario
 		for _, s := range all {
+			if prop == "C04" && s.MixedHash {
+				// the refinement monitor models one hash size; S13's oracle is C05's list-integrity monitor
+				continue
+			}
 			if prop == "C10" {
 				// the snapshot property needs a reading process
 				hasReader := false
